@@ -57,12 +57,21 @@ ASSUMPTIONS = [
     'wrong-type values are only of an unambiguously different type: list/dict for scalars, a non-numeric non-boolean '
     'non-variable word for numbers and booleans, a word/dict for lists, a word/list for sections; bool-for-int, '
     'int-for-float, int-for-string and digit strings are not generated (open)',
-    'not judged for completeness (observed and counted only): faults inside sections of a platform that is not being '
-    'loaded; wrongly typed values overridden by a higher layer for every component they apply to; wrongly typed '
-    'values of variables no component uses; references to the $import component itself; a name shared by the '
-    '$import entry or a loop component and a normal component; arguments that spell a reference to an existing '
+    '"a workflow CONTAINING an unknown option key / a wrongly typed option" is read literally (JUDGE_INACTIVE=True): a '
+    'fault in a section of a platform that is not being loaded (scope "inactive") and a wrongly typed value that a '
+    'higher layer overrides for every component or that belongs to a variable nobody uses (scope "ineffective") are '
+    'judged like faults that shape the loaded platform (scope "active"); the scope is part of the failure signature. '
+    'Rationale: the same loader with primitive=True rejects every one of them. Values the format defines as computed '
+    '(`platforms`, workflowAttributes.isRepeat) are never judged (scope "derived")',
+    '"option key" = every key the FlowIR schema fixes, at every nesting level: top-level sections, the global/stages '
+    'scope labels, stage options, output options, component options (also inside blueprint and override), the '
+    'DoWhile document and the $import entry; user-chosen names (platforms, variables, environments, outputs, '
+    'bindings) are not keys',
+    'not judged for completeness (observed and counted only): references to the $import entry itself; a name shared '
+    'by the $import entry or a loop component and a normal component; arguments that spell a reference to an existing '
     'component that is not declared in `references`; outputs whose data-in names a dropped component; a DoWhile '
-    'whose condition producer was dropped; documents left without any executable component; environment values',
+    'whose condition producer was dropped; documents left without any executable component or with a gap in the '
+    'stage indices; values of environment variables; None for an option that does not list None',
     'dropping a component that nothing references, renaming a reference to another existing producer without '
     'closing a cycle, removing a variable that another applicable layer still defines: recognised as STILL VALID by '
     'the model and only judged for soundness',
@@ -311,12 +320,17 @@ def make_case(base, platform, mut):
             'files': base['files'], 'nonc': base['nonc']}
 
 
+_TOP = None     # per-run scratch directory, created (and always removed) by run() in the parent process
+
+
 def worker(col, item, tier, seed):
-    from verif.gen.pkg import scratch_dir
+    import tempfile
+    from verif.gen.pkg import scratch_root
     bid, platform, shard, nshards = item
     base = [b for b in GEN.bases() if b['id'] == bid][0]
     thorough = tier == 'thorough'
-    with scratch_dir('c11-') as scratch:
+    scratch = tempfile.mkdtemp(prefix='w-', dir=_TOP or scratch_root())
+    try:
         if shard == 0:
             case = make_case(base, platform, None)
             judge(col, case, scratch, True)
@@ -332,9 +346,13 @@ def worker(col, item, tier, seed):
             col.count('mutations_%s' % mut['kind'])
             if i < 2 * nshards and shard == 0:
                 col.sample({'base': bid, 'platform': platform, 'mut': mut})
+    finally:
+        shutil.rmtree(scratch, ignore_errors=True)
 
 
 def run(ctx):
+    global _TOP
+    from verif.gen.pkg import scratch_dir
     bad = V.selfcheck()
     if bad:
         raise HarnessError('the reference model fails its hand-computed cases: %s' % '; '.join(bad))
@@ -346,7 +364,13 @@ def run(ctx):
             for s in range(nshards):
                 items.append((base['id'], platform, s, nshards))
             ctx.count('bases_x_platforms')
-    ctx.pmap('verif.props.c11', 'worker', items)
+    # one directory per run, owned by the parent: removed even when the pool is torn down after a harness error
+    with scratch_dir('c11-run-') as top:
+        _TOP = top
+        try:
+            ctx.pmap('verif.props.c11', 'worker', items)
+        finally:
+            _TOP = None
 
 
 def replay(ctx, case):
@@ -371,9 +395,10 @@ def _instantiation_case(f):
     """Common part of the two 'validated after instantiation' selectors: returns (mutation, path, scopes) or None."""
     a = _accepted(f)
     m = f['case'].get('mut') or {}
-    if a is None or m.get('kind') not in ('misspell', 'mistype', 'addkey') or a[0] - {'unknown-key', 'wrong-type'}:
+    if a is None or m.get('kind') not in ('misspell', 'mistype', 'addkey', 'setopt') \
+            or a[0] - {'unknown-key', 'wrong-type'}:
         return None
-    return m, list(m['path']), a[1]
+    return m, list(m['path']) + list(m.get('option', [])), a[1]
 
 
 def _sel_sections_validated_after_instantiation(f):
